@@ -189,7 +189,7 @@ instance {ε α : Type} [DecidableEq ε] [DecidableEq α] : DecidableEq (Except 
   | .error _, .ok _ => isFalse (fun e => by injection e)
 
 /-- `applyCmdEnvTags` for one tagged field: the options in tag order, the first with a non-zero
-value is applied.  A slice value is rebuilt from **element 0 only**, split at the delimiter. -/
+value is applied.  A slice value is rebuilt from every element, each split at the delimiter. -/
 def applyOpts (k : Kind) (cur : Val) : List OptSrc → Except Err Val
   | [] => .ok cur
   | o :: os =>
@@ -198,10 +198,10 @@ def applyOpts (k : Kind) (cur : Val) : List OptSrc → Except Err Val
     | some v =>
       if isZero v then applyOpts k cur os
       else match v with
-        | .list (e0 :: _) =>
+        | .list es =>
           (match o.delim with
            | none => .error .noDelimiter
-           | some c => .ok (.list (splitChar c e0)))
+           | some c => .ok (.list (es.flatMap (splitChar c))))
         | v => .ok v
 
 /-! ## Files and defaults -/
